@@ -49,7 +49,7 @@ def run(chk):
                        'granular markings addressing every path of the object; frozen list of accepted variants as a regression oracle.')
     chk.trust('the generator is only as complete as spec/tables_* and the seeds in vf/objgen.py', 'spec/accepted_variants.json (frozen list of generator variants the library accepted when the model was frozen)')
     lexical_part(chk, 'C03')
-    cs = [K.validate_type_contract(), K.integer_clean_contract(), KP.dict_to_stix2_contract()] + [K.order_contract(*row) for row in K.ORDER_TABLE]
+    cs = [K.validate_type_contract(), K.integer_clean_contract(), K.integer_clean_contract('bool'), KP.dict_to_stix2_contract()] + [K.order_contract(*row) for row in K.ORDER_TABLE]
     cs += [KM.validate_contract(), KM.validate_selector_contract(), KM.evaluate_expression_contract()]        # granular markings on every existing path are accepted
     for c in cs:
         chk.prove(c); chk.canary(c)
